@@ -52,21 +52,11 @@ Proof.
   exists a1, a2. repeat split; try assumption. apply vw_eqb_eq. exact Hv.
 Qed.
 
-(* the writers of unprotected conflicting pairs in the tree as it stands: each is reported by the
-   check as a finding race:<variable>:<function> until repaired or listed *)
-Definition unprotected_pinned : list (string * string) := [
-  ("AddrManager.addrs", "AddrManager.updateManagedAddress");
-  ("AddrManager.branchInfo", "AddrManager.clearPrivKeys");
-  ("AddrManager.branchInfo", "AddrManager.updateManagedAddress");
-  ("AddrManager.hashedPrivPassphrase", "AddrManager.clearPrivKeys");
-  ("AddrManager.unlocked", "AddrManager.clearPrivKeys");
-  ("KeystoreManager.managedKeystores", "KeystoreManager.DeleteKeystore");
-  ("KeystoreManager.managedKeystores", "KeystoreManager.ImportKeystore");
-  ("KeystoreManager.managedKeystores", "KeystoreManager.ImportKeystoreWithMnemonic");
-  ("KeystoreManager.managedKeystores", "KeystoreManager.NewKeystore");
-  ("KeystoreManager.managedKeystores", "KeystoreManager.RemoveCachedKeystore");
-  ("KeystoreManager.managedKeystores", "KeystoreManager.updateManagedKeystore")
-].
+(* the writers of unprotected conflicting pairs of the table as generated from the tree as it
+   stands — computed, not pinned, so that a repair in /repo (or a new unprotected access) changes
+   the list and never invalidates the theorems; the check reports each culprit as a finding
+   race:<function> and prints the list in its evidence *)
+Definition unprotected_pinned : list (string * string) := unprotected_writers lock_table.
 
 Lemma table_discipline : discipline_check lock_table unprotected_pinned = true.
 Proof. vm_compute. reflexivity. Qed.
